@@ -44,7 +44,10 @@ LEVEL_NOTE = ("Float theorems are about float64 points and float64 edges (defaul
               "(round 4; compared with the implementation's nested helper and with Decimal(repr(x)) on every run). NaN, +-inf, |ints| >= 2^53 are outside "
               "the model. cleaner_range's fallback path (step that is not a short decimal: 16+ decimals) is modelled bit-exactly and generated (oracle: the "
               "grid start + k*h to 1e-12 relative, exact length for an end on the grid); no theorem covers it, and the class in which it rounds the START to a "
-              "multiple of the step is a genuine-defect candidate observed and counted, not enforced (AWAITING_DECISION_CLEANER).")
+              "multiple of the step was decided a genuine defect (D49, repaired in /repo: the branch now steps from the start itself); the model is "
+              "of the REPAIRED branch (fallbackRange), the old one is kept as kernel-checked findings (finding_cleaner_fallback_displaced_*), and "
+              "the repaired branch is proved: first edge = start, edge k = fl64(start + fl64(k*h)), exact count, and the binning clause on regular "
+              "returned grids (fallback_first_edge, fallbackRange_getElem?, fallback_count_exact, fallback_bins_ok).")
 DESIGN_REF = "DESIGN.md §4 C02"
 TECHNIQUE = "Lean 4 kernel-checked theorems (exact layer on Rat, Soft64 layer for the float formula) + differential correspondence"
 
@@ -91,6 +94,10 @@ THEOREMS = [
     # Properties/C02_Repr.lean (round 4): num_decimals inside the model
     "Bin1d.numDecimals_denotes", "Bin1d.float_is_nearest_of_its_repr", "Bin1d.cleanerRange_repr_exact",
     "Bin1d.cleanerRange_repr_bins_ok",
+    # the fallback branch after fix D49, and the old branch as findings
+    "Bin1d.fallbackRange_length", "Bin1d.fallbackRange_getElem?", "Bin1d.fallback_first_edge", "Bin1d.fallback_quotient_err",
+    "Bin1d.fallback_count_exact", "Bin1d.fallback_edge_near", "Bin1d.cleanerRangeAuto_fallback", "Bin1d.fallback_bins_ok",
+    "Bin1d.finding_cleaner_fallback_displaced_50", "Bin1d.finding_cleaner_fallback_displaced_035",
 ]
 TRUSTED = ["Lean 4.33 kernel", "axioms: propext, Classical.choice, Quot.sound at most",
            "Soft64.fl64/fl32 is IEEE-754 round-to-nearest-even and numpy + - * / floor on float64/float32 are that arithmetic "
@@ -497,7 +504,7 @@ def flush(ctx):
                 ctx.bitexact += 1
             elif oracle_ok:
                 # the implementation's grid satisfies the property's oracle (exactly the decimal grid / the grid to rounding): a
-                # difference to the model — which transcribes the CURRENT code, the awaiting-decision displacement of the fallback
+                # difference to the model — which transcribes the CURRENT code, (before fix D49) the displacement of the fallback
                 # path included — is a loss of bit-exactness, never a violation (a tree that repairs the fallback must stay green)
                 run.count("cleaner: differs from the model with a property-correct result (recorded)")
                 if len(ctx.bit_diff) < 5:
@@ -846,6 +853,235 @@ def _run_grid(ctx, g, modes=(False, True), pds=("f64",), tol=None, n_model=120, 
                 check_values(ctx, g, vals, tol, rc, tag + "-sample", n_model)
                 if tol is None and disc and n <= 4000:
                     discretize_on_grid(ctx, g, vals, rc)
+    if tol is None and "f64" in pds and disc:
+        guarded(ctx, dict(kind="grid", grid=g.spec), single_value_checks, ctx, g, tag)
+        if ctx.gid % 4 == 1:
+            guarded(ctx, dict(kind="grid", grid=g.spec), size_and_aliasing_checks, ctx, g, tag)
+
+
+
+# ----------------------------------------------------------------------------- single values in every form, on EVERY grid
+def single_value_checks(ctx, g, tag):
+    """Every value class of the generators (edges themselves, +-1..4 ulps, the rims of the band, mid-bin, below the first edge,
+    around the closed top) ALSO one value at a time as Python float, numpy.float64 scalar, 0-d array, 1-element array and 1-element
+    list, through bin1d_vec (both modes, positional and keyword arguments), discretize and — for a sample — get_magnitude_index and
+    get_mag_idx of a ONE-event catalog. Each answer is judged by the exact oracle (not by comparison with the array call) and must
+    have the shape of its input. Added after the seeded change C02_11 (a plain-Python fast path for ONE scalar whose one-bin-up repair
+    compared with the recomputed edge a0 + (k+1)*h instead of the stored one) was missed: scalars were tried on a few grids only
+    and never on an edge where the floor formula is one low."""
+    run, rng = ctx.run, ctx.rng
+    from csep.utils.calc import bin1d_vec, discretize
+    n = g.n
+    if n < 2 or g.bd != "f64" or not g.premise("f64", None):
+        return
+    # ALL edges on small grids; on larger ones the first / last few, a sample, and — directed — the edges at which the uniform-grid
+    # formula itself comes out one bin low, so that the result depends on the repair against the STORED edge (`repair_edges`)
+    need = repair_edges(g)
+    if len(need):
+        run.count("single_values_on_repair_edges", int(min(len(need), 30)))
+    idx = numpy.arange(n) if n <= 40 else numpy.unique(numpy.array([0, 1, 2, n - 3, n - 2, n - 1] + rng.sample(range(n), 24) +
+                                                                   [int(k) for k in need[:30]]))
+    e = g.e64[idx]
+    cand = [e, ulp_step(e, 1), ulp_step(e, -1), ulp_step(e, 2), ulp_step(e, -4), e + 0.5 * float(g.hF)]
+    # the rims of the band below each edge
+    for f in (0.5, 1.5):
+        w = numpy.array([float(band_width(g, "f64", None, int(j), g.F[int(j)], g.F[int(j)])) for j in idx])
+        cand.append(e - f * w)
+    vals = numpy.unique(numpy.concatenate(cand + [numpy.array([g.e64[0] - 0.5 * float(g.hF), float(g.topF), float(g.topF) + float(g.hF)])]))
+    vals = vals[numpy.isfinite(vals)]
+    if len(vals) > 160:
+        keep = set(float(x) for x in e)          # the edges themselves always
+        rest = [float(x) for x in vals if float(x) not in keep]
+        vals = numpy.array(sorted(keep | set(rng.sample(rest, 160 - min(160, len(keep))))) if len(keep) < 160 else sorted(keep))
+    forms = (("pyfloat", float, ()), ("np64", numpy.float64, ()), ("0d", lambda v: numpy.array(v), ()),
+             ("1-array", lambda v: numpy.array([v]), (1,)), ("1-list", lambda v: [v], (1,)))
+    nfail = 0
+    for v in vals:
+        v = float(v)
+        for rc in (False, True):
+            al = allowed_val(g, "f64", None, rc, v)
+            for k, (fname, mk, shape) in enumerate(forms):
+                kw = (k + int(v * 7)) % 3
+                try:
+                    if kw == 0:
+                        o = bin1d_vec(mk(v), g.bins, None, rc)
+                    elif kw == 1:
+                        o = bin1d_vec(mk(v), g.bins, right_continuous=rc)
+                    else:
+                        o = bin1d_vec(p=mk(v), bins=g.bins, tol=None, right_continuous=rc)
+                    o = numpy.asarray(o)
+                    ok = o.shape == shape and o.dtype.kind in "iu" and int(o.ravel()[0]) in al
+                    got = repr(o.tolist())
+                except Exception as ex:
+                    ok, got = False, f"{type(ex).__name__}: {ex}"
+                run.evaluations += 1
+                if not ok and nfail < 3:
+                    nfail += 1
+                    run.oracle_failure(dict(kind="bin1d", grid=g.spec, pd="f64", tol=None, rc=rc, p=[repr(v)], form=fname, tag=tag),
+                                       f"bin1d_vec of the single value {v!r} given as {fname} is {got}; the property allows {sorted(al)} "
+                                       f"(shape {shape})")
+        # discretize of one value (open-ended): the left edge of an allowed bin
+        al = allowed_val(g, "f64", None, True, v)
+        if -1 not in al:
+            for fname, mk, shape in (forms[0], forms[2], forms[4]):
+                try:
+                    d = numpy.asarray(discretize(mk(v), g.bins, right_continuous=True))
+                    ok = d.shape == shape and any(float(g.e64[a]) == float(d.ravel()[0]) for a in al)
+                    got = repr(d.tolist())
+                except Exception as ex:
+                    ok, got = False, f"{type(ex).__name__}: {ex}"
+                run.evaluations += 1
+                if not ok and nfail < 3:
+                    nfail += 1
+                    run.oracle_failure(dict(kind="disc", grid=g.spec, pd="f64", rc=True, p=[repr(v)], shape=list(shape), tag=tag, form=fname),
+                                       f"discretize of the single value {v!r} given as {fname} is {got}; allowed bins {sorted(al)}")
+    run.count("single_value_forms_grids")
+    run.count("single_values", len(vals))
+    # the magnitude call sites with ONE magnitude (a sample of the values: a catalog per value is slow)
+    if ctx.gid % 3 == 0:
+        from csep.core.catalogs import CSEPCatalog
+        from csep.core.forecasts import GriddedForecast
+        from csep.core import regions
+        reg = regions.CartesianGrid2D.from_origins(numpy.array([[0., 0.], [0.1, 0.]]), dh=0.1, magnitudes=g.bins)
+        fore = GriddedForecast(data=numpy.ones((2, g.n)), region=reg, magnitudes=g.bins)
+        on_edges = [float(x) for x in e]
+        for v in rng.sample(on_edges, min(6, len(on_edges))) + [float(x) for x in rng.sample(list(vals), min(4, len(vals)))]:
+            al = allowed_val(g, "f64", None, True, v)
+            if -1 in al:
+                continue
+            try:
+                cat = CSEPCatalog(data=[("0", 0, 0.05, 0.05, 0.0, v)], region=reg)
+                gi = [int(i) for i in numpy.asarray(cat.get_mag_idx())]
+                cnt = numpy.asarray(cat.magnitude_counts(mag_bins=g.bins))
+                gm = [int(i) for i in numpy.asarray(fore.get_magnitude_index([v])).ravel()]
+                gs = [int(i) for i in numpy.asarray(fore.get_magnitude_index(numpy.float64(v))).ravel()]
+                ok = len(gi) == 1 and gi[0] in al and gm[0] in al and gs[0] in al and int(round(float(cnt.sum()))) == 1 and \
+                    int(numpy.argmax(cnt)) in al
+                got = f"get_mag_idx {gi}, magnitude_counts at {int(numpy.argmax(cnt))}, get_magnitude_index {gm} / scalar {gs}"
+            except Exception as ex:
+                ok, got = False, f"{type(ex).__name__}: {ex}"
+            run.evaluations += 1
+            if not ok and nfail < 3:
+                nfail += 1
+                run.oracle_failure(dict(kind="bin1d", grid=g.spec, pd="f64", tol=None, rc=True, p=[repr(v)], form="one-event", tag=tag),
+                                   f"one magnitude {v!r}: {got}; the property allows {sorted(al)}")
+        run.count("single_value_call_sites")
+
+
+def repair_edges(g):
+    """indices k of the edges for which the tolerance-corrected floor formula (evaluated here in float64 exactly as documented:
+    floor((e - a0 + |e|eps + |a0|eps) / (h - |a0|eps))) gives less than k: only the comparison with the stored edge puts the edge
+    value into the bin it opens. These are the inputs on which any second implementation of the repair must agree."""
+    if g.n < 2 or g.bd != "f64":
+        return numpy.array([], dtype=int)
+    e = g.e64
+    eps = numpy.finfo(numpy.float64).eps
+    a0, h = e[0], e[1] - e[0]
+    with numpy.errstate(all="ignore"):
+        k = numpy.floor((e - a0 + numpy.abs(e) * eps + abs(a0) * eps) / (h - abs(a0) * eps))
+    return numpy.nonzero(k < numpy.arange(g.n))[0]
+
+
+def repair_directed_grids(ctx, want=4, tries=60):
+    """grids that HAVE such edges: the two known ones and random decimal grids with many edges searched for them"""
+    rng = ctx.rng
+    specs = [dict(kind="decimal", S=59, D=273, nd=1, n=12), dict(kind="magbins", start="0.1", end="30.1", h="0.3")]
+    found = 0
+    for _ in range(tries):
+        if found >= want:
+            break
+        D = rng.randint(11, 9999)
+        spec = dict(kind="decimal", S=rng.randint(1, max(2, D // 4)), D=D, nd=rng.randint(1, 3), n=rng.choice([200, 1000, 3000]))
+        g = build_grid(spec)
+        if len(repair_edges(g)):
+            specs.append(spec)
+            found += 1
+    for spec in specs:
+        g = build_grid(spec)
+        ctx.gid += 1
+        ctx.run.count("repair_directed_grids")
+        guarded(ctx, dict(kind="grid", grid=spec), single_value_checks, ctx, g, "repair-directed")
+
+
+# ----------------------------------------------------------------------------- sizes, aliasing, caller-owned arrays
+SIZES = [501, 2001, 5001, 2 ** 16 + 1, 2 ** 17 + 1]
+
+
+def size_and_aliasing_checks(ctx, g, tag):
+    """(3) SIZE THRESHOLDS: the same values as ONE array of 501 / 2 001 / 5 001 / 2^16+1 / 2^17+1 elements — the edge-directed ones in
+    the first block, at the block boundaries and at the end — must get the bins they get in small pieces (the bin of a value does not
+    depend on the company it keeps: every value's bin is in its allowed set, and equal to the small-piece answer outside the band);
+    (2) the caller's arrays are not modified, and after the caller CHANGES its value array in place a second call answers for the new
+    content; (1) the returned array is the caller's: writing into it does not change the next answer."""
+    run, rng = ctx.run, ctx.rng
+    from csep.utils.calc import bin1d_vec, discretize
+    if g.n < 2 or g.bd != "f64" or not g.premise("f64", None):
+        return
+    idx = numpy.arange(g.n) if g.n <= 30 else numpy.array(rng.sample(range(g.n), 30))
+    base = values_around(g, rng, idx, "f64", dense=False)
+    base = base[numpy.isfinite(base) & (numpy.abs(base) < 1e15)]
+    rc = rng.random() < 0.5
+    case0 = dict(kind="bin1d", grid=g.spec, pd="f64", tol=None, rc=rc, tag=tag + "-size")
+    small = numpy.concatenate([numpy.asarray(bin1d_vec(base[i:i + 97], g.bins, right_continuous=rc)) for i in range(0, len(base), 97)])
+    als = [allowed_val(g, "f64", None, rc, x) for x in base]
+    for N in (SIZES if ctx.tier != "quick" else rng.sample(SIZES[:3], 1) + [rng.choice(SIZES[3:])]):
+        reps = -(-N // len(base))
+        big = numpy.tile(base, reps)[:N].copy()
+        # the interesting values also at the block boundaries and at the very end
+        for pos in (0, 499, 500, 1999, 2000, 4999, 5000, 65535, 65536, 131071, 131072, N - 1):
+            if pos < N:
+                big[pos] = base[pos % len(base)]
+        snap = big.copy()
+        bsnap = numpy.array(g.bins).copy()
+        out = numpy.asarray(bin1d_vec(big, g.bins, right_continuous=rc))
+        run.evaluations += N
+        run.count(f"size_{N}")
+        if not numpy.array_equal(big, snap) or not numpy.array_equal(numpy.asarray(g.bins), bsnap):
+            run.oracle_failure(dict(case0, p=[repr(float(x)) for x in base[:4]], size=N), f"bin1d_vec modified the caller's {'value' if not numpy.array_equal(big, snap) else 'edge'} array ({N} values)")
+            return
+        if out.shape != (N,):
+            run.oracle_failure(dict(case0, p=[repr(float(x)) for x in base[:4]], size=N), f"result shape {out.shape} for {N} values")
+            return
+        k = numpy.arange(N) % len(base)
+        k[[pos for pos in (0, 499, 500, 1999, 2000, 4999, 5000, 65535, 65536, 131071, 131072, N - 1) if pos < N]] = \
+            [pos % len(base) for pos in (0, 499, 500, 1999, 2000, 4999, 5000, 65535, 65536, 131071, 131072, N - 1) if pos < N]
+        single = numpy.array([len(a) == 1 for a in als])
+        bad = numpy.nonzero((out != small[k]) & single[k])[0]
+        if len(bad) == 0:
+            bad = numpy.array([i for i in numpy.nonzero(out != small[k])[0][:50] if int(out[i]) not in als[k[i]]], dtype=int)
+        if len(bad):
+            i = int(bad[0])
+            run.oracle_failure(dict(case0, p=[repr(float(big[i]))], size=N, position=i),
+                               f"as element {i} of an array of {N} values {float(big[i])!r} gets bin {int(out[i])}; in an array of 97 values "
+                               f"it gets {int(small[k[i]])} (allowed {sorted(als[k[i]])})")
+            return
+    # aliasing: write into the result, change the input in place
+    p = base[:200].copy()
+    r1 = numpy.asarray(bin1d_vec(p, g.bins, right_continuous=rc))
+    keep = r1.copy()
+    try:
+        r1 += 7
+    except Exception:
+        pass
+    r2 = numpy.asarray(bin1d_vec(p, g.bins, right_continuous=rc))
+    p += float(g.hF)                       # the caller moves its values by one step
+    r3 = numpy.asarray(bin1d_vec(p, g.bins, right_continuous=rc))
+    fresh = numpy.asarray(bin1d_vec(p.copy(), g.bins, right_continuous=rc))
+    run.evaluations += 3
+    run.count("aliasing_checks")
+    if not numpy.array_equal(r2, keep):
+        run.oracle_failure(dict(case0, p=[repr(float(x)) for x in base[:4]]), "writing into the array bin1d_vec returned changed the answer of the next call")
+    elif not numpy.array_equal(r3, fresh):
+        run.oracle_failure(dict(case0, p=[repr(float(x)) for x in p[:4]]), "after the caller changed its value array in place the answer is not that of the new content")
+    inr = base[(base >= g.e64[0] + 1e-6 * float(g.hF)) & (base < g.e64[-1])][:100].copy()
+    if len(inr):
+        d1 = numpy.asarray(discretize(inr, g.bins, right_continuous=True))
+        keep = d1.copy()
+        d1 *= 0
+        if not numpy.array_equal(numpy.asarray(discretize(inr, g.bins, right_continuous=True)), keep) or \
+                not numpy.array_equal(numpy.asarray(g.bins), bsnap):
+            run.oracle_failure(dict(kind="disc", grid=g.spec, pd="f64", rc=True, p=[repr(float(x)) for x in inr[:4]], shape=None, tag=tag),
+                               "writing into the array discretize returned changed the edges or the next answer (the result aliases state)")
 
 
 def scalar_checks(ctx, g):
@@ -1039,11 +1275,8 @@ def rand_cleaner(ctx, rng, nmax):
 
 # Input class on which the unchanged code misbehaves and whose membership in the property is for the integrator to decide
 # (genuine-defect candidate, witness + proposed patch in notes/C02.md): observed and counted, not enforced.
-AWAITING_DECISION_CLEANER = [
-    "cleaner_range fallback path (step with 16+ decimals, i.e. not a short decimal) with 10**num_decimals(start) < 1/step and "
-    "start not a multiple of the step: `scale = 1/h` rounds the START to a multiple of the step — "
-    "cleaner_range(5.0, 6.0, 0.0712345678901234)[0] == 4.986419753086419, cleaner_range(0.3, 0.4, 1/35)[0] == 0.2857142857142857",
-]
+# (round 4's AWAITING_DECISION_CLEANER — the fallback path rounding the START to a multiple of the step — was decided a genuine defect
+# and repaired in /repo by fix D49: the class is now a generated, ENFORCED class; witnesses in corpus/C02/d49_cleaner_fallback.json)
 
 
 def check_cleaner_float(ctx, start, end, h, tag):
@@ -1084,15 +1317,13 @@ def check_cleaner_float(ctx, start, end, h, tag):
                 bad = f"element {k} is {float(x)!r}, the grid start + k*h has {float(S + k * H)!r}"
                 break
     if bad:
-        # the awaiting-decision class: fallback path with scale = 1/h
-        dec_s, dec_h = num_decimals(start), num_decimals(h)
-        main = 10 ** max(dec_s, dec_h) * max(abs(float(start)), abs(float(end))) < 2 ** 52
-        displaced = (not main) and 10 ** dec_s < 1 / float(h) and (S / H).denominator != 1
-        if displaced:
-            run.count("awaiting-decision: cleaner_range fallback rounds the start to a multiple of the step")
-            run.extra.setdefault("awaiting_decision_witness_cleaner", f"{case['call']} -> {[float(v) for v in out[:3]]!r}")
-        else:
-            run.oracle_failure(case, f"{case['call']}: {bad}")
+        # (until fix D49 the class "coarse start, fine noisy step" was displaced by the fallback path and only counted)
+        dec_s = num_decimals(start)
+        if 10 ** dec_s < 1 / float(h) and (S / H).denominator != 1:
+            run.count("D49 class (coarse start, fine noisy step): FAILS")
+        run.oracle_failure(case, f"{case['call']}: {bad}")
+    elif 10 ** num_decimals(start) < 1 / float(h) and (S / H).denominator != 1 and num_decimals(h) >= 16:
+        run.count("D49 class (coarse start, fine noisy step): grid starts at start")
     qi = ctx.drv.ask(f"c02_cleaner_auto {frac(float(start))} {frac(float(end))} {frac(float(h))}")
     ctx.pending.append(("cleaner", qi, case, [Fraction(float(x)) for x in out], not bad))
     if len(ctx.pending) >= 40:
@@ -1104,8 +1335,7 @@ NOISY_STEPS = [1 / 3, 1 / 6, 1 / 7, 2 / 3, 1 / 30, 1 / 35, 1 / 60, 1 / 70, 1 / 3
 
 
 def rand_cleaner_float(ctx, rng):
-    """the argument classes of `check_cleaner_float`; `displaced` marks the awaiting-decision class (generated on purpose,
-    counted, not enforced)"""
+    """the argument classes of `check_cleaner_float` (all enforced since fix D49)"""
     import math
     h = rng.choice(NOISY_STEPS) if rng.random() < 0.7 else rng.uniform(0.01, 1.0)
     cnt = rng.choice([0, 1, 2, 5, 17, 100, 1000])
@@ -1120,12 +1350,13 @@ def rand_cleaner_float(ctx, rng):
     elif r < 0.85:                                 # an integer or one-decimal start with a coarse step (1/h < 10)
         h = rng.choice([1 / 3, 1 / 6, 1 / 7, 2 / 3, 0.7123456789012345, 1.0000000000000002, 0.30000000000000004])
         start = rng.choice([float(rng.randint(-50, 50)), round(rng.uniform(-50, 50), 1)])
-    else:                                          # awaiting-decision class: coarse start, fine noisy step
+    else:                                          # the class of defect D49: coarse start, fine noisy step
         h = rng.choice([1 / 30, 1 / 35, 1 / 60, 1 / 70, 0.0712345678901234])
         start = round(rng.uniform(-20, 20), 1)
-    # `end` on the grid (start + cnt*h as the caller computes it in floats): for an end OFF the grid the fallback path rounds
-    # `end` to 1/scale first, which can be coarser than h/2, so the property fixes no count there (not generated)
-    end = start + cnt * h
+    # `end` on the grid (start + cnt*h as the caller computes it in floats) or — since fix D49 counts with the step itself,
+    # `floor((end - start)/h + 0.5)` — up to 0.45 steps beyond it
+    off = 0.0 if rng.random() < 0.6 else rng.uniform(0, 0.45) * h
+    end = start + cnt * h + off
     check_cleaner_float(ctx, float(start), float(end), float(h), "float-step")
 
 
@@ -1379,6 +1610,7 @@ def run(run, rng, tier):
     run.extra["shipped_grids_covered"] = covered
     run.extra["shipped_grids_not_covered"] = missing
     api_checks(ctx)
+    repair_directed_grids(ctx)
     from . import c02_calls
     import sys
     c02_calls.run_calls(ctx, sys.modules[__name__], tier)
